@@ -153,7 +153,9 @@ func (t *Template) peekNonSpace() (token item) {
 // errorf formats the error and terminates processing.
 func (t *Template) errorf(format string, args ...interface{}) {
 	t.Root = nil
-	format = fmt.Sprintf("template: %s:%d: %s", t.ParseName, t.lex.lineNumber(), format)
+	// the name is data, not part of the format: "/a%20b.jet" must come out as it is
+	name := strings.Replace(t.ParseName, "%", "%%", -1)
+	format = fmt.Sprintf("template: %s:%d: %s", name, t.lex.lineNumber(), format)
 	panic(fmt.Errorf(format, args...))
 }
 
